@@ -1358,8 +1358,14 @@ impl Session {
                         stream_id,
                         iteration
                     );
-                    // Send data frame
-                    let write_result = self.write_data_frame(stream_id, data).await;
+                    // Send data frame; an empty chunk is the end-of-data marker queued by Stream::send_fin
+                    // behind the stream's data: it goes out as FIN
+                    let write_result = if data.is_empty() {
+                        self.write_control_frame(Frame::control(Command::Fin, stream_id))
+                            .await
+                    } else {
+                        self.write_data_frame(stream_id, data).await
+                    };
                     match write_result {
                         Ok(_) => {
                             total_bytes_out += data_len;
